@@ -1,17 +1,24 @@
 (* Property C04 — interleaved scheduler: main stream, batch cutting and stopping
-   point are exact.  Theorems only; proofs live in Proofs.v / Corollaries.v. *)
+   point are exact.  Theorems only; proofs live in the other files of C04/. *)
 From Coq Require Import ZArith List Bool.
 Import ListNotations.
-From KD Require Import C04.Model C04.Spec C04.Lists C04.Arith C04.Proofs C04.Corollaries C04.Batches C04.Example.
+From KD Require Import C04.Model C04.Spec C04.Lists C04.Arith C04.Proofs C04.Corollaries C04.Batches C04.Bounds C04.Example.
 Open Scope Z_scope.
 
-(* The model of _training_loop, started at any epoch boundary, IS the closed-form
-   run: epoch after epoch, announce e, show the epoch's updates (batch, then due
-   passes) up to and including the first one reaching the budget. *)
-Theorem c04_model_is_spec : forall c mi, WF c mi -> forall n e,
-  run c mi n (init_state e (upe c * e) (spe c * e)) = spec_run c mi e n.
+(* The model of _training_loop, started at any epoch boundary (with the side
+   samplers iterated pn times before), IS the closed-form run: epoch after
+   epoch, announce e, show the epoch's updates (batch, then due passes) up to
+   and including the first one reaching a budget. *)
+Theorem c04_model_is_spec : forall c mi, WF c mi -> forall n e pn, length pn = length (sides c) ->
+  run c mi n (init_state e (upe c * e) (spe c * e) pn) = spec_run c mi e pn n.
 Proof. exact model_eq_spec. Qed.
 Print Assumptions c04_model_is_spec.
+
+(* the "len(main_sampler) < batch size" adjustment branches of _training_loop
+   are dead: the loop runs with the constructor's batch_size and samples_per_epoch *)
+Theorem c04_loop_geometry : forall c mi, WF c mi -> loop_geom c = (cB c, spe c).
+Proof. exact loop_geom_eq. Qed.
+Print Assumptions c04_loop_geometry.
 
 (* the batches of epoch e: the first samples_per_epoch indices of the main
    sampler's own iteration, cut by batch_size; only the last batch may be short;
@@ -20,12 +27,7 @@ Theorem c04_epoch_batches : forall c mi, WF c mi -> forall e,
   concat (epoch_batches c mi e) = firstn (Z.to_nat (spe c)) (mi e) /\
   shape (Z.to_nat (cB c)) (epoch_batches c mi e) /\
   Z.of_nat (length (epoch_batches c mi e)) = upe c.
-Proof.
-  intros c mi W e. split; [|split].
-  - exact (epoch_batches_concat c mi W e).
-  - exact (epoch_batches_shape c mi W e).
-  - exact (epoch_batches_count c mi W e).
-Qed.
+Proof. exact epoch_batches_facts. Qed.
 Print Assumptions c04_epoch_batches.
 
 (* what is dropped: nothing without drop_last, else the remainder modulo the
@@ -38,38 +40,106 @@ Proof. exact spe_spec. Qed.
 Print Assumptions c04_samples_per_epoch.
 
 (* the main part of every update is exactly its batch with only the last index flagged full *)
-Theorem c04_update_main_part : forall c e bs j,
-  filter is_main (u_events (upd_at c e bs j)) = emit Main (nth j bs []).
+Theorem c04_update_main_part : forall c e bs pn j,
+  filter is_main (u_events (upd_at c e bs pn j)) = emit Main (nth j bs []).
 Proof. exact update_main_part. Qed.
 Print Assumptions c04_update_main_part.
 
-(* the stop is exact: no shown update before the last reaches the budget; an
-   epoch that stops the run ends with an update that does; otherwise the whole
-   epoch is shown *)
-Theorem c04_stop_exact : forall c mi e,
-  let us := fst (take_until (hit c) (epoch_updates c mi e)) in
+(* the stop is exact, per epoch: no shown update before the last reaches a
+   budget; an epoch that stops the run ends with an update that does; otherwise
+   the whole epoch is shown *)
+Theorem c04_stop_exact : forall c mi e pn,
+  let us := fst (take_until (hit c) (epoch_updates c mi e pn)) in
   Forall (fun u => hit c u = false) (removelast us) /\
   (epoch_hits c mi e = true -> exists u, us = removelast us ++ [u] /\ hit c u = true) /\
-  (epoch_hits c mi e = false -> us = epoch_updates c mi e /\ Forall (fun u => hit c u = false) us).
+  (epoch_hits c mi e = false -> us = epoch_updates c mi e pn /\ Forall (fun u => hit c u = false) us).
 Proof. exact stop_exact. Qed.
 Print Assumptions c04_stop_exact.
 
-(* it always ends: from every epoch boundary strictly before the budget the run
-   terminates within the fuel the model computes from the remaining budget *)
-Theorem c04_always_ends : forall c mi, WF c mi -> forall e, before_budget c e ->
-  exists tr, run c mi (default_fuel c (start_state c e)) (start_state c e) = Some tr.
+(* ... and for the run as a whole, for the three budget kinds jointly (the loop
+   tests each of self.epochs / self.updates / self.samples that is given): the
+   stream is what the run's updates show, one after the other over all epochs,
+   up to and including the FIRST update at which one of the given budgets is
+   reached - not one update earlier or later - and such an update exists *)
+Theorem c04_stop_global : forall c mi, WF c mi -> forall n e0 pn tr, length pn = length (sides c) ->
+  run c mi n (start_state c e0 pn) = Some tr ->
+  snd (take_until (hit c) (all_updates c mi e0 pn n)) = true /\
+  strip tr = flat_map u_events (fst (take_until (hit c) (all_updates c mi e0 pn n))).
+Proof. exact stop_global_run. Qed.
+Print Assumptions c04_stop_global.
+
+(* it always ends: from every epoch boundary strictly before the given budgets
+   the run terminates within the fuel the model computes from the remaining budget *)
+Theorem c04_always_ends : forall c mi, WF c mi -> forall e pn, length pn = length (sides c) ->
+  before_budget c e ->
+  exists tr, run c mi (default_fuel c (start_state c e pn)) (start_state c e pn) = Some tr.
 Proof. exact sampler_terminates. Qed.
 Print Assumptions c04_always_ends.
 
+(* the answer does not depend on the fuel once there is enough *)
+Theorem c04_fuel_irrelevant : forall c mi, WF c mi -> forall n e pn tr m, length pn = length (sides c) ->
+  run c mi n (start_state c e pn) = Some tr -> run c mi (n + m) (start_state c e pn) = Some tr.
+Proof. exact run_fuel_mono. Qed.
+Print Assumptions c04_fuel_irrelevant.
+
+(* "always ends", quantitatively: explicit bounds on what a run started at
+   epoch e0 yields.  n_main / n_upd / n_yield = number of main indices / updates /
+   all indices in the stream.  epochs = E: at most (E - e0) * samples_per_epoch
+   main indices in at most (E - e0) * updates_per_epoch updates; updates = U: at
+   most U - u0 updates; samples = X: fewer than X - s0 + batch_size main indices;
+   always at most batch_size main indices per update and at most one pass over
+   every config per update *)
+Theorem c04_yield_bound : forall c mi, WF c mi -> forall n e0 pn tr, length pn = length (sides c) ->
+  run c mi n (start_state c e0 pn) = Some tr ->
+  (forall E, bE c = Some E -> e0 < E -> n_main tr <= (E - e0) * spe c /\ n_upd tr <= (E - e0) * upe c) /\
+  (forall U, bU c = Some U -> e0 * upe c < U -> n_upd tr <= U - e0 * upe c) /\
+  (forall X, bS c = Some X -> e0 * spe c < X -> n_main tr <= X - e0 * spe c + cB c - 1) /\
+  n_main tr <= n_upd tr * cB c /\
+  n_yield tr <= n_main tr + n_upd tr * sum_slen c.
+Proof. exact yield_bound. Qed.
+Print Assumptions c04_yield_bound.
+
 (* always on a batch boundary: the batch sampler's trailing assertion cannot fire *)
-Theorem c04_ends_on_batch_boundary : forall c mi, WF c mi -> forall n e tr,
-  run c mi n (start_state c e) = Some tr -> snd (batches (render tr)) = true.
+Theorem c04_ends_on_batch_boundary : forall c mi, WF c mi -> forall n e pn tr, length pn = length (sides c) ->
+  run c mi n (start_state c e pn) = Some tr -> snd (batches (render tr)) = true.
 Proof. exact ends_on_batch_boundary. Qed.
 Print Assumptions c04_ends_on_batch_boundary.
 
-(* non-vacuity: a well-formed configuration exists and is before its budget *)
-Example c04_premises_satisfiable : WF ex_cfg ex_iter /\ before_budget ex_cfg 0.
-Proof. split; [exact ex_wf|]. unfold before_budget. cbn. reflexivity. Qed.
+(* the constructor: a call that passes all assertions has arguments satisfying
+   cfg_ok (batch_size in 1..len, drop_last_batch_size a multiple of batch_size
+   in batch_size..len and only with drop_last, every config with an interval,
+   all intervals and batch sizes positive) and EXACTLY ONE non-negative budget;
+   conversely such arguments pass, and the outcome is the checkpoint's *)
+Theorem c04_ctor_ok : forall a c e u s, ctor a = Ok c e u s ->
+  c = cfg_of_args a /\ args_valid a /\
+  checkpoint c (a_start_epoch a) (a_start_update a) (a_start_sample a) = Start e u s.
+Proof. exact ctor_ok. Qed.
+Print Assumptions c04_ctor_ok.
+
+Theorem c04_ctor_complete : forall a, args_valid a ->
+  ctor a = match checkpoint (cfg_of_args a) (a_start_epoch a) (a_start_update a) (a_start_sample a) with
+           | Start e u s => Ok (cfg_of_args a) e u s
+           | NotImplemented => CNotImplemented
+           | AssertFail => CAssertFail
+           end.
+Proof. exact ctor_complete. Qed.
+Print Assumptions c04_ctor_complete.
+
+(* so the premise WF of the theorems above is not vacuous on real use: whatever
+   the constructor accepts is well-formed, provided len() of the samplers is
+   what their iterations yield (the property's domain) *)
+Theorem c04_ctor_accepts_wf : forall a c e u s mi, ctor a = Ok c e u s -> env_ok c mi -> WF c mi.
+Proof. exact ctor_accepts_wf. Qed.
+Print Assumptions c04_ctor_accepts_wf.
+
+(* non-vacuity: an accepted constructor call exists, is well-formed and before its budget *)
+Example c04_premises_satisfiable :
+  ctor ex_args = Ok ex_cfg 0 0 0 /\ WF ex_cfg ex_iter /\ before_budget ex_cfg 0 /\ args_valid ex_args.
+Proof.
+  split; [exact ex_ctor|]. split; [exact ex_wf|]. split.
+  - unfold before_budget. cbn. repeat split; try discriminate; intros ? H; inversion H; reflexivity.
+  - exact (proj1 (proj2 (ctor_ok _ _ _ _ _ ex_ctor))).
+Qed.
 Example c04_example_run :
-  option_map (fun l => length l) (run ex_cfg ex_iter 4 (start_state ex_cfg 0)) = Some 40%nat.
+  option_map (fun l => length l) (run ex_cfg ex_iter 4 (start_state ex_cfg 0 [0; 0]%nat)) = Some 40%nat.
 Proof. vm_compute. reflexivity. Qed.
